@@ -6,7 +6,7 @@ Lemma remote_redirect simple astr mredir cdres injrisk rulematch c k ss fs ks :
   let t := T k ss fs ks in
   str_eqb k $"heredoc" = false -> snd c = true ->
   r_redir (ev simple astr mredir cdres injrisk rulematch t) c =
-  match child "target" t with Some w => r_wp (ev simple astr mredir cdres injrisk rulematch w) false c | None => [] end.
+  match child "target" t with Some w => r_wp (ev simple astr mredir cdres injrisk rulematch w) (str_eqb (attr_d "op" t) HERESTRING_OP) c | None => [] end.
 Proof.
   intros t Hk Hr. subst t. rewrite redir_unfold, Hk, Hr. apply app_nil_r.
 Qed.
